@@ -111,9 +111,11 @@ Proof.
 Qed.
 
 Definition chz (z : Z) : cell := {| crune := z; cbytes := String (ascii_of_N (Z.to_N z)) ""; cvalid := true |}.
+Lemma hdr_name_not_not : map crune [chz 100] <> [110; 111; 116]%Z.
+Proof. cbn. discriminate. Qed.
 Definition hd_kv : chdr.
 Proof.
-  refine {| h_op := CAll; h_w1x := sp; h_w1 := []; h_sr := of_mixed (chz 100) [] [] eq_refl (Forall_nil _) (Forall_nil _) ltac:(cbn; discriminate);
+  refine {| h_op := CAll; h_w1x := sp; h_w1 := []; h_sr := of_mixed (chz 100) [] [] eq_refl (Forall_nil _) (Forall_nil _) (or_introl hdr_name_not_not);
             h_w2x := sp; h_w2 := []; h_w3x := sp; h_w3 := [];
             h_bcells := chz 107 :: app [] (app [] (chz 44 :: app [sp] (chz 118 :: [])));
             h_bval := mk_binding BIndexAndValue "" (cells_str [chz 107]) (cells_str [chz 118]); h_w4 := [sp];
@@ -122,7 +124,8 @@ Proof.
             h_bspec := bspec_iv (chz 107) [] [] (chz 44) [sp] (chz 118) [] (Forall_nil _) (Forall_cons _ is_ws_sp (Forall_nil _))
                                 eq_refl eq_refl (Forall_nil _) eq_refl (Forall_nil _);
             h_bfree := fun K => eq_refl; h_nokw := _ |}.
-  intros c r E. cbn in E. inversion E; subst. cbn. intros [H|[H|[H|[H|[H|[H|[]]]]]]]; discriminate H.
+  apply mixed_hdr_nokw. intros kw Hkw. left. unfold hdr_kws in Hkw. cbn [In] in Hkw.
+  destruct Hkw as [H|[H|[H|[H|[H|[]]]]]]; subst kw; discriminate.
 Defined.
 
 (* the header text is what it should be, and the computed model parser reads a quantifier with it *)
